@@ -57,6 +57,10 @@ pub struct PolicyM {
     /// value None is written as null and requires the option to be absent
     #[serde(default)]
     pub match_other: Vec<(String, u8, Option<String>)>,
+    /// 0: keys written matches first, then addresses, options, sub-policies; otherwise the
+    /// seed of a permutation of the keys
+    #[serde(default)]
+    pub key_order: u64,
 }
 
 /// The options of one request as the server sees them (instances of a code concatenated).
@@ -139,53 +143,62 @@ impl PolicyM {
         }
     }
     fn yaml(&self, indent: usize, out: &mut String) {
+        /* the keys of this policy, each a block of text; a YAML hash has no order, so the
+         * blocks may be written in any order (`key_order`) without changing the meaning */
         let pad = " ".repeat(indent);
-        let mut first = true;
-        let mut line = |out: &mut String, s: String| {
-            if first {
-                out.push_str(&format!("{}- {}\n", " ".repeat(indent - 2), s));
-                first = false;
-            } else {
-                out.push_str(&format!("{}{}\n", pad, s));
-            }
-        };
+        let mut blocks: Vec<String> = vec![];
         if let Some((n, l)) = self.match_subnet {
-            line(out, format!("match-subnet: {}/{}", n, l));
+            blocks.push(format!("match-subnet: {}/{}\n", n, l));
         }
         if let Some(m) = &self.match_chaddr {
-            line(out, format!("match-hardware-address: \"{}\"", m.iter().map(|b| format!("{:02x}", b)).collect::<Vec<_>>().join(":")));
+            blocks.push(format!("match-hardware-address: \"{}\"\n", m.iter().map(|b| format!("{:02x}", b)).collect::<Vec<_>>().join(":")));
         }
         for (name, _, v) in &self.match_other {
-            line(out, match v {
-                Some(v) => format!("match-{}: \"{}\"", name, v),
-                None => format!("match-{}: null", name),
+            blocks.push(match v {
+                Some(v) => format!("match-{}: \"{}\"\n", name, v),
+                None => format!("match-{}: null\n", name),
             });
         }
         /* YAML hashes cannot repeat a key: at most one of each apply-* is written */
         for (a, l) in self.apply_subnet.iter().take(1) {
-            line(out, format!("apply-subnet: {}/{}", a, l));
+            blocks.push(format!("apply-subnet: {}/{}\n", a, l));
         }
         for (a, b) in self.apply_range.iter().take(1) {
-            line(out, format!("apply-range: {{ start: {}, end: {} }}", a, b));
+            blocks.push(format!("apply-range: {{ start: {}, end: {} }}\n", a, b));
         }
         for a in self.apply_address.iter().take(1) {
-            line(out, format!("apply-address: {}", a));
+            blocks.push(format!("apply-address: {}\n", a));
         }
         if let Some(m) = self.apply_max_lease {
-            line(out, format!("apply-max-lease: {}", m));
+            blocks.push(format!("apply-max-lease: {}\n", m));
         }
         for (k, v) in &self.apply_other {
-            line(out, format!("apply-{}: {}", k, v));
+            blocks.push(format!("apply-{}: {}\n", k, v));
         }
         if !self.policies.is_empty() {
-            line(out, "policies:".to_string());
+            let mut b = String::from("policies:\n");
             for p in &self.policies {
-                p.yaml(indent + 4, out);
+                p.yaml(indent + 4, &mut b);
             }
+            blocks.push(b);
         }
-        if first {
+        if blocks.is_empty() {
             /* an entirely empty policy: write it as an empty hash */
             out.push_str(&format!("{}- {{}}\n", " ".repeat(indent - 2)));
+            return;
+        }
+        if self.key_order != 0 {
+            Rng::new(self.key_order, "policy-key-order").shuffle(&mut blocks);
+        }
+        for (i, b) in blocks.iter().enumerate() {
+            /* the first line of a block carries the key; nested lines are already indented */
+            let (head, rest) = b.split_once('\n').unwrap();
+            if i == 0 {
+                out.push_str(&format!("{}- {}\n", " ".repeat(indent - 2), head));
+            } else {
+                out.push_str(&format!("{}{}\n", pad, head));
+            }
+            out.push_str(rest);
         }
     }
 }
@@ -710,6 +723,18 @@ pub fn gen_config(r: &mut Rng, lans: &[Lan], clients: &[ClientSpec], allow_polic
             let sub = PolicyM { match_other: vec![cond], apply_range: vec![(hs[a].into(), hs[b].into())], ..Default::default() };
             let at = k.below(outer.policies.len() as u64 + 1) as usize;
             outer.policies.insert(at, sub);
+        }
+        /* the keys of some policies in another order (sub-policies before the addresses...) */
+        fn reorder(p: &mut PolicyM, k: &mut Rng) {
+            if k.chance(0.3) {
+                p.key_order = k.range(1, 1 << 40);
+            }
+            for q in p.policies.iter_mut() {
+                reorder(q, k);
+            }
+        }
+        for p in policies.iter_mut() {
+            reorder(p, &mut k);
         }
         /* match-subnet written as a supernet of the LAN, with host bits set, as the server's
          * /32, or as a neighbouring network (which matches nobody on this LAN) */
